@@ -1,4 +1,19 @@
-From DV Require Import Status.
+From DV Require Import Status StatusSession.
 Require Extraction.
 Require Import ExtrOcamlBasic.
-Extraction "model.ml" check_entry differs Z.succ.
+
+(* finite listings for the runner: association lists turned into the model's total maps *)
+Definition of_list {A} (l : list (nat * A)) : nat -> option A :=
+  fun p => match find (fun x => Nat.eqb (fst x) p) l with Some (_, v) => Some v | None => None end.
+Definition mk_state (h : list (nat * entry)) (i : list (nat * ientry)) (w : list (nat * wentry)) : st :=
+  {| hd := of_list h; ix := of_list i; wt := of_list w |}.
+(* the five listings of porcelain.status at the given paths: add, delete, modify, unstaged, untracked *)
+Definition status_at (fm : bool) (s : st) (ps : list nat) : list (nat * (bool * bool * bool * bool * bool)) :=
+  map (fun p => (p, (staged_add (hd s) (ix s) p, staged_delete (hd s) (ix s) p, staged_modify (hd s) (ix s) p,
+                     st_unstaged fm s p, st_untracked s p))) ps.
+(* the index of a state at the given paths; the boolean says whether the recorded signature is the file's *)
+Definition index_at (s : st) (ps : list nat) : list (nat * option (entry * bool)) :=
+  map (fun p => (p, match ix s p with
+                    | Some x => Some (i_entry x, match wt s p with Some y => Z.eqb (w_sig y) (i_sig x) | None => false end)
+                    | None => None end)) ps.
+Extraction "model.ml" check_entry differs Z.succ mk_state status_at index_at step.
